@@ -1,5 +1,5 @@
 """C04 -- allocate returns a free, shortest-available nameplate and holds it."""
-from ..events import (all_events, is_app_id, construct_of, handler_paths,
+from ..events import (is_conn_side, all_events, is_app_id, construct_of, handler_paths,
                       handler_for, frame_type, frame_fields, flat_events)
 from ..report import render_path
 from ..terms import show, plain, is_const, strip_wrappers, mentions, walk
@@ -183,7 +183,7 @@ def run(ctx):
         eq = sel["src"]["where_eq"]
         ok = eq is not None and set(eq) == {"app_id"} and is_app_id(eq["app_id"]) and \
             ("name" in sel["stmt"].cols or "*" in sel["stmt"].cols) and \
-            sel["stmt"].limit is None
+            sel["stmt"].all_rows
         ctx.ob("R04.src", construct_of(sel), ok, sel,
                "" if ok else "the in-use set is read by %s" % sel["stmt"].normalized())
         rows = ("rows", sel["site"])
@@ -242,7 +242,7 @@ def run(ctx):
         # R04.hold
         nhold += 1
         side = claim_call["args"][1] if len(claim_call["args"]) > 1 else None
-        oks = side is not None and side[0] == "attr" and side[2] == "_side"
+        oks = side is not None and is_conn_side(side)
         ctx.ob("R04.hold", "%s: claims the candidate for the caller's side" % h, oks,
                claim_call, "" if oks else "the allocator claims for %s" % show(side)[:60])
         for e in evs:
